@@ -460,7 +460,82 @@ def replay_C08(ctx, path):
     return 0
 
 
+# ------------------------------------------------------------------ C18
+_RACE_ACC = re.compile(r"^(?:Write|Read|Previous write|Previous read) at \S+ by [^\n]*:\n((?:  \S[^\n]*\n\s+\S+[^\n]*\n)+)", re.M)
+
+
+def _race_reports(logdir):
+    """Parse GORACE log files: one entry per report whose BOTH accesses pass through non-hook code of /repo/src."""
+    out, total = {}, 0
+    for f in sorted(os.listdir(logdir)):
+        if not f.startswith("r."):
+            continue
+        txt = open(os.path.join(logdir, f), errors="replace").read()
+        for blk in txt.split("=================="):
+            if "WARNING: DATA RACE" not in blk:
+                continue
+            total += 1
+            sides = []
+            for m in _RACE_ACC.finditer(blk):
+                frames = re.findall(r"  (\S+)\n\s+(\S+?):(\d+)", m.group(1))
+                mine = [(fn, fl, ln) for fn, fl, ln in frames if fl.startswith("/repo/src/") and "verif_hooks" not in fl]
+                hooktop = bool(frames) and "verif_hooks" in frames[0][1]
+                if mine and not hooktop:
+                    fn = mine[0][0].split("/")[-1].rstrip("()").replace("(*", "").replace(")", "")
+                    sides.append((fn, "%s:%s" % (mine[0][1].replace("/repo/src/", ""), mine[0][2])))
+            if len(sides) >= 2:
+                key = "race:" + "|".join(sorted({sides[0][0], sides[1][0]}))
+                out.setdefault(key, "the Go race detector reports unsynchronised accesses at %s (%s) and %s (%s)" % (sides[0][1], sides[0][0], sides[1][1], sides[1][0]))
+    return out, total
+
+
+def run_C18(ctx, tier):
+    tool = _tool("conch", race=True)
+    logdir = os.path.join(ctx.work, "race_%s" % tier)
+    shutil.rmtree(logdir, ignore_errors=True)
+    os.makedirs(logdir)
+    summ = os.path.join(logdir, "sum.json")
+    env = dict(os.environ)
+    env["GORACE"] = "log_path=%s/r halt_on_error=0 history_size=4" % logdir
+    rc, out, err = sh([tool, "race", "-tier", tier, "-seed", str(ctx.seed), "-summary", summ], timeout=3000, cwd=logdir, env=env)
+    if not os.path.exists(summ):
+        raise RuntimeError("conch race failed rc=%s %s %s" % (rc, out[-1500:], err[-1500:]))
+    s = json.load(open(summ))
+    reports, total = _race_reports(logdir)
+    viol = [{"key": k, "what": w} for k, w in sorted(reports.items())]
+    if rc != 0 and not viol:
+        viol.append({"key": "race-workload-crashed", "what": "the concurrent workload aborted (rc=%s): %s" % (rc, (out + err)[-400:])})
+    table = open(os.path.join(COQ, "Gen", "LockSites.v")).read()
+    return {"evaluations": s["evaluations"], "distinct_nontrivial": s["distinct_nontrivial"],
+            "rule": "binary built with -race from /repo: on one loaded node every unordered pair of {propose, gossip-add, park (unknown parent), retry, balance, history, by-hash reads, DAG stream, loaded?, "
+                    "trusted-node update} runs in two goroutines (6 iterations each), then 8 goroutines run 20 random operations each; parked vertices against the REAL 2 s retry ticker; truncation of a 1010-vertex "
+                    "history concurrently with balance reads and proposals; on a gossip node every pair of {announce, discover, fetch-missing-parent, gossiped vertex with unknown parent}; the race detector's "
+                    "reports (GORACE log) are the oracle; reports whose racing frame is verification-hook code are ignored; non-trivial = distinct operation pairs",
+            "samples": s.get("samples", [])[:2], "mismatches": [], "violations": viol,
+            "extra": {"branches_reached": s.get("kinds", {}), "race_reports_total": total,
+                      "accesses_translated": len(re.findall(r"^\s*Acc ", table, re.M)), "roots_translated": len(re.findall(r"^\s*Root ", table, re.M)),
+                      "comparison": "static: Gen/LockSites.v regenerated from the source and C18_lockset_discipline re-proved on every run; dynamic: Go race detector over the pair matrix on the real code"},
+            "assumptions": ["only fields of structs that own a mutex (AccountingBook, buffer, gossiper, Hippocampus, ...) in src/accountant, src/cache, src/gossip are in the table; local variables captured by goroutines, "
+                            "slice/map element aliasing and library internals (badger, bigcache, heimdalr/dag, grpc) are covered only by the dynamic race run",
+                            "CreateGenesis/LoadDag (load phase) and constructors are excluded from concurrency, as the property speaks about a loaded node",
+                            "sync.Mutex/RWMutex behave as Model/Lockset.v's lstep; the race detector's happens-before is not modelled - mutual exclusion by a common lock implies it",
+                            "the translator is syntactic (see C08)"]}
+
+
+def replay_C18(ctx, path):
+    r = json.load(open(path))
+    print(json.dumps(r, indent=1)[:3000])
+    res = run_C18(ctx, "quick")
+    want = (r.get("violation") or {}).get("key")
+    if (want and want in {v["key"] for v in res["violations"]}) or (not want and res["violations"]):
+        print("VIOLATION property=C18 replay=%s" % path)
+        return 1
+    print("replay: not reproduced on the current tree")
+    return 0
+
+
 PROPS = {
+    "C18": {"run": run_C18, "replay": replay_C18, "level": "proof"},
     "C08": {"run": run_C08, "replay": replay_C08},
     "C05": {"run": run_C05, "replay": replay_C05},
     "C01": make_ledger_check("C01", ["c01.", "res.", "op."]),
